@@ -82,7 +82,7 @@ def theorem_names(module):
     ns = []
     names = []
     nex = 0
-    for line in src.splitlines():
+    for line in strip_comments(src).splitlines():
         m = re.match(r"\s*namespace\s+(\S+)", line)
         if m:
             ns.append(m.group(1))
@@ -166,9 +166,71 @@ def run_harness(binary, sub, seed, n, tier, outpath, replay=None, timeout=3600, 
     if extra:
         cmd += extra
     rc, o = sh(cmd, env=GOENV, timeout=timeout, cwd=BUILD)
+    if rc != 0 and not replay:
+        # the real code killed the harness process (e.g. unbounded recursion -> fatal stack overflow): isolate the case
+        log(f"harness {sub} died with exit code {rc}; isolating the crashing case")
+        return isolate_crash(cmd, sub, seed, n, outpath, o)
     if rc != 0:
-        raise Broken(f"harness {sub} exited with {rc}:\n" + o[-4000:])
+        with open(outpath, "w") as f:
+            f.write(f"#crash replay\tst=crash\tFAIL c02-crash the real code killed the process: {crash_reason(o)}\tcrash\n")
     return o
+
+
+def crash_reason(out):
+    for line in out.splitlines():
+        if line.startswith("fatal error") or line.startswith("panic:") or "stack overflow" in line:
+            return line.strip()[:200]
+    return out.strip().splitlines()[-1][:200] if out.strip() else "no output"
+
+
+def isolate_crash(cmd, sub, seed, n, outpath, first_out):
+    """re-run the generated cases in windows, each in its own process; a window that dies is split until the
+    single crashing case is found, which is reported as an oracle failure (signature c02-crash)."""
+    lines = []
+    found = []          # crashing cases isolated so far; one replay is enough, so stop early
+    t_start = time.time()
+
+    def run_window(lo, hi, corpus):
+        tmp = outpath + f".{lo}-{hi}"
+        c = cmd[:cmd.index("-out") + 1] + [tmp] + ["-lo", str(lo), "-hi", str(hi)] + ([] if corpus else ["-nocorpus"])
+        rc, o = sh(c, env=GOENV, timeout=3600, cwd=BUILD)
+        got = open(tmp, errors="replace").read().splitlines() if rc == 0 and os.path.exists(tmp) else None
+        try:
+            os.remove(tmp)
+        except OSError:
+            pass
+        return got, o
+
+    def go(lo, hi, corpus):
+        if len(found) >= 2 or time.time() - t_start > 240:
+            return
+        got, o = run_window(lo, hi, corpus)
+        if got is not None:
+            lines.extend(got)
+            return
+        if corpus:
+            lines.append(f"#crash {sub} corpus\tst=crash\tFAIL c02-crash the real code killed the process in a corpus case: {crash_reason(o)}\tcrash")
+            found.append("corpus")
+            return
+        if hi - lo <= 1:
+            lines.append(f"#crash {sub} seed={seed} n={n} case={lo}\tst=crash\tFAIL c02-crash the real code killed the process "
+                         f"(harness {sub} -seed {seed} -n {n} -lo {lo} -hi {hi}): {crash_reason(o)}\tcrash")
+            found.append(lo)
+            return
+        mid = (lo + hi) // 2
+        go(lo, mid, False)
+        go(mid, hi, False)
+
+    # generated case indices can exceed n for grouped generators; cover a generous range in windows
+    step = max(16, n // 16)
+    go(0, 0, True)          # corpus only
+    lo = 0
+    while lo < n + step:
+        go(lo, lo + step, False)
+        lo += step
+    with open(outpath, "w") as f:
+        f.write("\n".join(lines) + "\n")
+    return first_out
 
 
 def read_cases(path):
